@@ -52,6 +52,7 @@ type confBackend struct {
 	cli     *clientv3.Client
 	prefix  string
 	lease   clientv3.LeaseID
+	leases  []clientv3.LeaseID // every lease granted in the current sequence (all revoked at its end)
 	lastMod int64
 	baseRev int64
 }
@@ -160,11 +161,12 @@ func (b *confBackend) apply(ctx context.Context, o confOp) string {
 		}
 		return fmt.Sprintf("succ=%v", r.Succeeded)
 	case "grant":
-		r, err := b.cli.Grant(ctx, 60)
+		r, err := b.cli.Grant(ctx, 3600)
 		if err != nil {
 			return confErr(err)
 		}
 		b.lease = r.ID
+		b.leases = append(b.leases, r.ID)
 		return "granted"
 	case "revoke":
 		_, err := b.cli.Revoke(ctx, b.lease)
@@ -180,11 +182,14 @@ func confRunSeq(b *confBackend, seqNo int, ops []confOp) ([]string, string, erro
 	defer cancel()
 	b.prefix = fmt.Sprintf("/verifconf/%d/", seqNo)
 	b.lastMod = 0
-	g, err := b.cli.Grant(ctx, 60)
+	// long TTL: no lease may expire while the enumeration runs (an expiry deletes keys and bumps the
+	// revision in the middle of some later sequence)
+	g, err := b.cli.Grant(ctx, 3600)
 	if err != nil {
 		return nil, "", err
 	}
 	b.lease = g.ID
+	b.leases = []clientv3.LeaseID{g.ID}
 	base, err := b.cli.Get(ctx, b.prefix+"none")
 	if err != nil {
 		return nil, "", err
@@ -244,7 +249,9 @@ func confRunSeq(b *confBackend, seqNo int, ops []confOp) ([]string, string, erro
 		}
 	}
 	// events of one revision (prefix delete, lease revoke) have no defined order across backends
-	_, _ = b.cli.Revoke(ctx, b.lease)
+	for _, id := range b.leases {
+		_, _ = b.cli.Revoke(ctx, id) // "lease not found" for the ones the sequence revoked itself
+	}
 	return out, strings.Join(confCanonEvents(evs), ";"), nil
 }
 
